@@ -146,7 +146,7 @@ func orders(n int) [][]int {
 	return out
 }
 
-func permuteObj(n *jsonfault.Node, p []int) {
+func PermuteObj(n *jsonfault.Node, p []int) {
 	keys := make([]string, len(p))
 	elems := make([]*jsonfault.Node, len(p))
 	for i, j := range p {
@@ -155,7 +155,7 @@ func permuteObj(n *jsonfault.Node, p []int) {
 	n.Keys, n.Elems = keys, elems
 }
 
-func escapeAll(n *jsonfault.Node) {
+func EscapeAll(n *jsonfault.Node) {
 	esc := func(s string) string {
 		var sb strings.Builder
 		for _, r := range s {
@@ -178,7 +178,7 @@ func escapeAll(n *jsonfault.Node) {
 		}
 	default:
 		for _, e := range n.Elems {
-			escapeAll(e)
+			EscapeAll(e)
 		}
 	}
 }
@@ -189,7 +189,7 @@ func utf16Surrogates(r rune) (rune, rune) {
 }
 
 // renderKeysEscaped renders with object keys escaped too.
-func render(n *jsonfault.Node, indent bool, escapeKeys bool) string {
+func Render(n *jsonfault.Node, indent bool, escapeKeys bool) string {
 	var sb strings.Builder
 	var rec func(n *jsonfault.Node, depth int)
 	nl := func(depth int) {
@@ -289,16 +289,16 @@ func layoutsOf(root *jsonfault.Node, firstKeyPath []string, full bool) []layout 
 	}
 	for oi, to := range topOrders {
 		c := root.Clone()
-		permuteObj(c, to)
-		out = append(out, layout{fmt.Sprintf("top-order-%d compact", oi), render(c, false, false)})
+		PermuteObj(c, to)
+		out = append(out, layout{fmt.Sprintf("top-order-%d compact", oi), Render(c, false, false)})
 		if oi == 0 || full {
-			out = append(out, layout{fmt.Sprintf("top-order-%d indented", oi), render(c, true, false)})
+			out = append(out, layout{fmt.Sprintf("top-order-%d indented", oi), Render(c, true, false)})
 		}
 		if oi <= 1 {
 			e := c.Clone()
-			escapeAll(e)
-			out = append(out, layout{fmt.Sprintf("top-order-%d escaped-values", oi), render(e, false, false)})
-			out = append(out, layout{fmt.Sprintf("top-order-%d escaped-values-and-keys", oi), render(e, true, true)})
+			EscapeAll(e)
+			out = append(out, layout{fmt.Sprintf("top-order-%d escaped-values", oi), Render(e, false, false)})
+			out = append(out, layout{fmt.Sprintf("top-order-%d escaped-values-and-keys", oi), Render(e, true, true)})
 		}
 	}
 	if first := find(root); first != nil {
@@ -308,8 +308,8 @@ func layoutsOf(root *jsonfault.Node, firstKeyPath []string, full bool) []layout 
 		}
 		for oi, o := range fo[1:] {
 			c := root.Clone()
-			permuteObj(find(c), o)
-			out = append(out, layout{fmt.Sprintf("first-element-order-%d", oi+1), render(c, false, false)})
+			PermuteObj(find(c), o)
+			out = append(out, layout{fmt.Sprintf("first-element-order-%d", oi+1), Render(c, false, false)})
 		}
 	}
 	return out
